@@ -164,7 +164,7 @@ func newScenario(cfg []string) (hx.Handler, string) {
 		}()
 		sl.ServeHTTP(rec, r)
 	})
-	s.srv = httptest.NewUnstartedServer(outer)
+	s.srv = hx.NewUnstartedServer(outer)
 	if ln, err := fx.Listen(); err == nil {
 		s.srv.Listener.Close()
 		s.srv.Listener = ln
